@@ -313,3 +313,8 @@ def run(ctx):
     for r in asserted[:4]:
         ctx.sample({"addr": r["addr"], "dial_addr": r["dial_addr"], "mode": r["mode"], "created": r["created"],
                     "obs": r["obs"], "expected": cases[picks[r["id"]][0]]["exp"]})
+
+    # ---- extra coverage: pkg/upstream/bootstrap (the address a hostname upstream dials comes from here):
+    # spec/Bootstrap.tla, harness/drv_bootstrap (built by the lead; also runnable as `bin/check X_bootstrap quick`)
+    import X_bootstrap
+    X_bootstrap.run_extra(ctx)
